@@ -748,7 +748,7 @@ func c14Partial(c *Ctx, S map[*ssa.Function]bool) {
 			}
 		}
 	}
-	R.Role("C14.R2", "uses of optional func/regexp rule fields", nNil, 6)
+	R.Role("C14.R2", "uses of optional func/regexp rule fields", nNil, 3)
 	if bad == 0 {
 		R.OK("C14.R2", "no-partial-ops", fmt.Sprintf("%d functions on sanitising paths", len(fns)), "", "no explicit panic, unchecked type assertion, integer division by a variable, or channel operation")
 	}
